@@ -37,12 +37,25 @@ def rule_check_before_replace(ctx):
     chk = calls(fi, "_check_new_values")
     reps = [c for c in calls(fi, "replace") if "labels_per_values" in unparse(c)]
     if not reps:
-        raise AnalysisError("_transform_qualitative: the label replacement (replace over labels_per_values) was not found")
-    rep = reps[0]
-    ok = bool(chk) and cfg.before(chk[0], rep) and not cfg.path_conditions(chk[0])
-    ctx.ob(R, construct(fi, "unknown-value check dominates the label replacement"), ok, loc(fi, rep),
-           "" if ok else "values outside the fitted orders would pass through `replace` unchanged")
-    if chk:
+        # labels applied in another way: every statement that reads the label table must come after the check
+        uses = [n for n in walk_no_nested(fi.node) if isinstance(n, ast.Attribute) and n.attr == "labels_per_values"]
+        if not uses:
+            raise AnalysisError("_transform_qualitative: no use of labels_per_values found (anchor vanished)")
+        ok = bool(chk) and all(cfg.before(chk[0], u) for u in uses) and not cfg.path_conditions(chk[0])
+        ctx.ob(R, construct(fi, "unknown-value check dominates the label replacement"), ok, loc(fi, uses[0]),
+               "" if ok else "values outside the fitted orders would be labelled or pass through before being checked")
+        feats = unparse(kwarg(chk[0], "features") or (chk[0].args[1] if len(chk[0].args) > 1 else ast.Constant(None))) if chk else ""
+        ctx.ob(R, construct(fi, "the checked frame is the replaced frame, over all qualitative features"), feats == "self.qualitative_features", loc(fi))
+        rep = None
+    else:
+        rep = reps[0]
+    ok = bool(chk) and rep is not None and cfg.before(chk[0], rep) and not cfg.path_conditions(chk[0])
+    if rep is None:
+        chk = []
+    if rep is not None:
+        ctx.ob(R, construct(fi, "unknown-value check dominates the label replacement"), ok, loc(fi, rep),
+               "" if ok else "values outside the fitted orders would pass through `replace` unchanged")
+    if chk and rep is not None:
         recv = unparse(rep.func.value)
         par = cfg.parent(chk[0])
         same = (isinstance(par, ast.Assign) and unparse(par.targets[0]) == recv) or (chk[0].args and unparse(chk[0].args[0]) == recv)
